@@ -22,6 +22,7 @@ func TestC02(t *testing.T) {
 			core.OpNew: 10, core.OpNewWith: 3, core.OpBuildNew: 5, core.OpBuildBatch: 12,
 			core.OpRemoveEnt: 22, core.OpRemoveEnts: 5, core.OpReset: 1, core.OpDumpLoad: 2, core.OpDumpSave: 2, core.OpDumpRestore: 2,
 			core.OpAdd: 3, core.OpRemove: 2, core.OpRelSet: 2, core.OpBatchAdd: 1,
+			core.OpRegister: 2, core.OpUnregister: 1, "useRegistered": 30,
 		},
 		Lim:      core.Limits{MaxAlive: 330, MaxTotal: 1200, MaxBatch: 7, MaxSlots: 2},
 		MaxPlain: 3, MaxRel: 1,
